@@ -20,7 +20,7 @@ def gen_script(rng, tier):
     tasks = rng.choice([2, 4, 8, 16, 32, 64]) if tier == 'quick' else rng.choice([2, 8, 64, 256, 1000])
     ops = rng.choice([5, 10, 20, 40]) if tasks <= 64 else 3
     keys = rng.choice([1, 2, 3])
-    kinds = rng.choice(['WR', 'WWRD', 'WRDC', 'WWRDCM', 'WRM'])
+    kinds = rng.choice(['WR', 'WWRD', 'WRDC', 'WWRDCM', 'WRM', 'WRDSM', 'RRDDSSM', 'WRDS'])     # S: the statistics calls
     L = ['cfg K=4 dup=%d group=%d bloom=%s init=eager runtime=%s maxrec=%d' % (dup, rng.choice([2, 8]), 'none', rt, rng.choice([7, 30, 100000])), 'open']
     reopened = rng.random() < 0.5
     if reopened:
